@@ -90,7 +90,7 @@ func (vc *VC) globalKey(g *ssa.Global) string {
 
 func (vc *VC) mapKeys(m *types.Map) (kv, kd, kc string) {
 	id := typeKey(m.Key()) + "|" + typeKey(m.Elem())
-	ks, vs := vc.sorts().sortOf(m.Key()), vc.sorts().sortOf(m.Elem())
+	ks, vs := vc.mapKeySort(m), vc.sorts().sortOf(m.Elem())
 	kv, kd, kc = "Mv|"+id, "Md|"+id, "Mc|"+id
 	vc.regHeap(kv, fmt.Sprintf("(Array (_ BitVec 64) (Array %s %s))", ks, vs), m)
 	vc.regHeap(kd, fmt.Sprintf("(Array (_ BitVec 64) (Array %s Bool))", ks), m)
@@ -618,7 +618,7 @@ func (fr *Frame) step(b *ssa.BasicBlock, ins ssa.Instruction, st *State, reach s
 		m := x.Type().Underlying().(*types.Map)
 		kv, kd, kc := vc.mapKeys(m)
 		_ = kv
-		vc.writeCell(st, kd, ref, fmt.Sprintf("((as const (Array %s Bool)) false)", S.sortOf(m.Key())))
+		vc.writeCell(st, kd, ref, fmt.Sprintf("((as const (Array %s Bool)) false)", vc.mapKeySort(m)))
 		vc.writeCell(st, kc, ref, bvConst(0, 64))
 		fr.bind(x, Val{S: ref})
 	case *ssa.MapUpdate:
@@ -891,6 +891,16 @@ func (fr *Frame) binop(b *ssa.BasicBlock, op token.Token, a, c Val, ta, tc types
 			e = sEq(app("g_sarr", s), bvConst(0, 64))
 		} else if _, ok := tc.Underlying().(*types.Slice); ok {
 			e = sEq(app("g_sarr", c.S), bvConst(0, 64))
+		} else if arr, ok := ta.Underlying().(*types.Array); ok && arr.Len() <= 64 && isBasicType(arr.Elem()) {
+			// Go arrays are equal when their elements are (the SMT arrays that
+			// represent them have further, meaningless cells)
+			x, y := vc.valTerm(a), vc.valTerm(c)
+			var parts []string
+			for i := int64(0); i < arr.Len(); i++ {
+				ii := bvConst(uint64(i), 64)
+				parts = append(parts, fmt.Sprintf("(= (select %s %s) (select %s %s))", x, ii, y, ii))
+			}
+			e = vc.def("Bool", "arreq", sAnd(parts...))
 		} else {
 			e = sEq(vc.valTerm(a), vc.valTerm(c))
 		}
@@ -1100,3 +1110,49 @@ func (fr *Frame) selectStmt(x *ssa.Select, st *State) {
 }
 
 var _ = strings.Contains
+
+// Map keys of a fixed-size array type (e.g. [20]byte hashes) are represented by
+// the bit-vector that concatenates the elements: solvers do not index arrays by
+// arrays, and two Go arrays are equal exactly when these bit-vectors are.
+func arrayKeyBits(m *types.Map) (n int, w int, ok bool) {
+	a, isArr := m.Key().Underlying().(*types.Array)
+	if !isArr {
+		return 0, 0, false
+	}
+	b, isB := a.Elem().Underlying().(*types.Basic)
+	if !isB {
+		return 0, 0, false
+	}
+	w, _, isInt := intWidth(b)
+	if !isInt || a.Len() <= 0 || int(a.Len())*w > 1024 {
+		return 0, 0, false
+	}
+	return int(a.Len()), w, true
+}
+
+func (vc *VC) mapKeySort(m *types.Map) string {
+	if n, w, ok := arrayKeyBits(m); ok {
+		return bvSort(n * w)
+	}
+	return vc.sorts().sortOf(m.Key())
+}
+
+func (vc *VC) mapKeyTerm(m *types.Map, key string) string {
+	n, _, ok := arrayKeyBits(m)
+	if !ok {
+		return key
+	}
+	if n == 1 {
+		return fmt.Sprintf("(select %s (_ bv0 64))", key)
+	}
+	parts := make([]string, n)
+	for i := 0; i < n; i++ {
+		parts[i] = fmt.Sprintf("(select %s %s)", key, bvConst(uint64(i), 64))
+	}
+	return vc.def(vc.mapKeySort(m), "akey", "(concat "+strings.Join(parts, " ")+")")
+}
+
+func isBasicType(t types.Type) bool {
+	_, ok := t.Underlying().(*types.Basic)
+	return ok
+}
